@@ -55,13 +55,14 @@ CHECKS = {
              "model-checked for the time-free clauses (held within capacity, grants only when fitting, nothing granted after "
              "Terminate, over-release reported). TLC enumerates driver scripts of acquire/try/release/terminate/sleep steps "
              "(SemScenarios.tla) and scripts with two or three concurrently blocked callers of different sizes and releases that "
-             "fit only some of them (SemContention.tla); each script runs in real time on a real DataSemaphore (blocking calls in goroutines, a settle "
+             "fit only some of them (SemContention.tla), and scripts in which a caller with a finite timeout is woken late by "
+             "insufficient releases and must still be refused within timeout + slack (SemLateWake.tla); each script runs in real time on a real DataSemaphore (blocking calls in goroutines, a settle "
              "pause after every step, final Terminate) and the recorded call/ret/warn/settled lines are validated by TLC against "
              "SemaphoreTrace.tla, which searches linearization points and adds the time clauses: refusal by timeout within "
              "[timeout, timeout+150 ms], at every settled point nobody is in flight whose request fits, exceeds the capacity or is "
              "overdue, and Processing() equals the specified held amount.",
         note="Real time without an injectable clock: generous margins (30 ms settle, 150 ms slack), a rejected scenario is run a "
-             "second time before it is reported and a host on which rejections do not reproduce yields exit 2. Scripts of 3 steps "
+             "second time (alone, same step timing) before it is reported and a host on which rejections do not reproduce yields exit 2. Scripts of 3 steps "
              "are exhaustive in the quick tier, longer ones sampled by the seed; the thorough tier runs all scripts of 4 and 5 "
              "steps of the small alphabet and a sample of a larger alphabet.",
         technique="TLA+ abstract spec (TLC) + TLC script enumeration + TLC trace validation with internal linearization steps (patterns S, T, L)",
